@@ -19,6 +19,12 @@ The parser below is written from the upstream concrete syntax (plutus-core
 itself under test.
 """
 import re
+import sys
+
+# UPLC integers are unbounded; python >= 3.11 limits int <-> str conversion by default
+# (goldens integerToByteString/*/maximum-input use 19729-digit literals)
+if hasattr(sys, "set_int_max_str_digits"):
+    sys.set_int_max_str_digits(0)
 
 SIMPLE_TYPES = ("integer", "bytestring", "string", "unit", "bool", "data", "g1", "g2", "ml")
 
@@ -374,6 +380,11 @@ def _simple_value_to_json(t, v):
     if t == "data":
         return data_to_json(v)
     if t == "ml":
+        # Miller-loop results are opaque (no concrete syntax, representation is
+        # implementation specific): emit a digest of our representation
+        if isinstance(v, tuple) and isinstance(v[1], tuple):
+            import hashlib
+            return "ml:" + hashlib.sha256(repr(v[1]).encode()).hexdigest()[:32]
         return v[1] if isinstance(v, tuple) else v
     raise BadTerm("bad type %r" % (t,))
 
@@ -387,6 +398,8 @@ def values_equal(ty, a, b):
             if t == "data":
                 if not data_equal(x, y):
                     return False
+            elif t == "ml":
+                pass    # opaque: not comparable across implementations (only via finalVerify)
             elif x != y:
                 return False
         elif t[0] == "list":
